@@ -2476,3 +2476,83 @@ func ruleCandidateKeepsEdgeDistance(c *eng.Ctx) {
 		c.Ok(R, eng.FuncName(fn)+"#Y", fn.Pos(), "not evaluated: no store to candidate.Y in this function")
 	}
 }
+
+// ---------------------------------------------------------------------------------------------------------------
+// R14.15 only a nil include list means "all metadata".
+
+// R14.15 [C14]
+func ruleNilListMeansAll(c *eng.Ctx) {
+	const R = "R14.15-NIL-LIST-MEANS-ALL"
+	c.Rule(R, "Exporter.filterMetadata hands back its whole input (as it is or flattened) only where ExportConfig.MetadataFields was found equal to nil: the documented contract is 'nil = all fields', so a present but empty list selects nothing, and a length test treats it like nil and exports every field", 1, 0)
+	fn := c.P.Func("rag.(*Exporter).filterMetadata")
+	if fn == nil {
+		c.Undec(R, "rag.(*Exporter).filterMetadata", token.NoPos, "anchor not found")
+		return
+	}
+	if len(fn.Params) < 2 {
+		c.Ok(R, eng.FuncName(fn)+"#whole-input", fn.Pos(), "not evaluated: the function has no metadata parameter")
+		return
+	}
+	in := ssa.Value(fn.Params[1])
+	nilFact := func(f eng.Fact) bool {
+		op, x, y, ok := f.Cmp()
+		if !ok || op != token.EQL || !eng.IsNilConst(y) {
+			return false
+		}
+		fr, ok := eng.LoadOfField(x)
+		return ok && fr.Field == "MetadataFields"
+	}
+	n := 0
+	var bad []string
+	// origins(v, blk): the places where v is the whole input; each must lie under the nil fact
+	seen := map[ssa.Value]bool{}
+	var visit func(v ssa.Value, blk *ssa.BasicBlock, at token.Pos)
+	visit = func(v ssa.Value, blk *ssa.BasicBlock, at token.Pos) {
+		switch x := v.(type) {
+		case *ssa.Phi:
+			if seen[x] {
+				return
+			}
+			seen[x] = true
+			for i, e := range x.Edges {
+				pred := x.Block().Preds[i]
+				if e == in {
+					n++
+					okNil := eng.GuardedBy(fn, pred, nilFact)
+					for si, sc := range pred.Succs {
+						if sc == x.Block() && eng.AnyEdgeFact(eng.Edge{From: pred, Succ: si}, nilFact) {
+							okNil = true
+						}
+					}
+					if !okNil {
+						bad = append(bad, "the whole input reaches the result at "+c.P.Pos(at))
+					}
+					continue
+				}
+				visit(e, pred, at)
+			}
+		case *ssa.Call:
+			if cal := eng.StaticCallee(x); cal != nil && eng.InModule(cal) && len(x.Call.Args) > 0 {
+				visit(x.Call.Args[0], x.Block(), at)
+			}
+		default:
+			if v == in {
+				n++
+				if !eng.GuardedBy(fn, blk, nilFact) {
+					bad = append(bad, "the whole input is returned at "+c.P.Pos(at))
+				}
+			}
+		}
+	}
+	for _, r := range eng.Returns(fn) {
+		if len(r.Results) > 0 {
+			visit(r.Results[0], r.Block(), r.Pos())
+		}
+	}
+	if n == 0 {
+		c.Ok(R, eng.FuncName(fn)+"#whole-input", fn.Pos(), "not evaluated: no return hands back the whole input")
+		return
+	}
+	sort.Strings(bad)
+	c.Check(len(bad) == 0, R, eng.FuncName(fn)+"#whole-input", fn.Pos(), "all fields only for a nil list", "the whole metadata is handed back without MetadataFields having been found nil ("+strings.Join(bad, "; ")+"): an empty include list exports every field instead of none")
+}
